@@ -114,7 +114,9 @@ def run(ctx, chk):
         chk.instance('R-DIRTYBOUND', f, c, a['ok'], detail='%s (%d visits)' % (a['why'], a['n']), span=a['span'],
                      what='a dirty-row index that is not a row of the screen can be recorded: ' + a['why'])
     chk.floor('dirty insert sites', len(dsites), 12)
-    # lowering `lines` must prune the dirty set
+    # lowering `lines` must prune the dirty set: on every exit path that assigns `lines` and is not shown
+    # to grow it, the dirty set is cleared, and whatever is marked between that clear and the assignment
+    # (own statements or a callee that may write `dirty`) is bounded by the value being installed
     for f, rs in sorted(sr['results'].items()):
         if ('lines',) not in ctx.eff.direct_all(f):
             continue
@@ -129,13 +131,32 @@ def run(ctx, chk):
                 total += 1
                 newv = evs[wl[-1]][2]
                 old = st.vn.get(('entry', 'lines'))
-                grows = isinstance(newv, NumV) and isinstance(old, NumV) and eng.prove_le(st, old, newv) is True
-                cleared = any(ev[0] == 'coll.clear' and ev[1] == ('S', 'dirty') for ev in evs)
-                if not (grows or cleared):
-                    bad.append(r.label)
+                if isinstance(newv, NumV) and isinstance(old, NumV) and eng.prove_le(st, old, newv) is True:
+                    continue
+                cl = [i for i, ev in enumerate(evs) if ev[0] == 'coll.clear' and ev[1] == ('S', 'dirty')]
+                if not cl:
+                    bad.append((r.label, 'no clear of the dirty set on the path'))
+                    continue
+                why = None
+                for ev in evs[cl[-1] + 1:wl[-1]]:
+                    if ev[0] == 'listener' and ('dirty',) in ctx.eff.maywrite.get(ev[1], set()):
+                        why = 'after the last clear, %s (line %s) may mark rows measured against the old `lines`' % (short(ev[1]), ev[3])
+                    elif ev[0] == 'set.insert' and ev[1] == ('S', 'dirty'):
+                        if not (isinstance(ev[2], NumV) and isinstance(newv, NumV) and eng.prove_cmp(st, 'lt', ev[2], newv) is True):
+                            why = 'row %r inserted after the last clear is not bounded by the new `lines`' % (ev[2],)
+                    elif ev[0] == 'set.extend' and ev[1] == ('S', 'dirty'):
+                        d = ev[2]
+                        okx = isinstance(d, tuple) and d[0] == 'range' and isinstance(d[2], NumV) and isinstance(newv, NumV) \
+                            and eng.prove_cmp(st, 'lt' if d[3] else 'le', d[2], newv) is True
+                        if not okx:
+                            why = 'rows %r marked after the last clear are not bounded by the new `lines`' % (d,)
+                    if why:
+                        break
+                if why:
+                    bad.append((r.label, why))
         chk.instance('R-DIRTYBOUND', short(f), 'prune-on-shrink', not bad,
-                     detail=('%d of %d exit paths that assign `lines` neither grow it nor clear the dirty set, e.g. [%s]' % (len(bad), total, bad[0])) if bad
-                     else '%d exit paths assign `lines`; each grows it or clears the dirty set first' % total,
+                     detail=('%d of %d exit paths that assign `lines` can keep a stale dirty row, e.g. [%s] %s' % (len(bad), total, bad[0][0], bad[0][1])) if bad
+                     else '%d exit paths assign `lines`; each grows it, or clears the dirty set and marks only rows below the new `lines` before the assignment' % total,
                      span=prog.bodies[f].span, what='`lines` can shrink while stale dirty-row indices are kept')
     chk.trust('summaries of HashMap/HashSet/Vec/Option/iterators (mtsa/summaries.py)', 'rustc MIR + const evaluation')
 
